@@ -43,11 +43,13 @@ def with_check_digits(country, cl, body, want: dict):
     return None
 
 
-def judge_mutation(valid: str, mutated: str, via_object: bool = False):
+def judge_mutation(valid: str, mutated: str, via_object: bool = False, national: bool = False):
     k0, _ = lib.iban_parse(valid)
     if k0 != "ok":
         return "skipped", None
     k, v = lib.iban_parse(mutated)
+    if k != "ok" and national:
+        k, v = lib.iban_parse(mutated, True)
     if k != "ok" and via_object:
         ko, obj = lib.outcome(lib.IBAN, mutated, allow_invalid=True)
         if ko == "ok":
@@ -112,6 +114,15 @@ def shard(args):
                 part.stat("after_partner_country")
         k, v = lib.iban_parse(mutated)
         part.stat(kind_)
+        if k != "ok" and with_national:
+            # requesting national validation on top can only reject more, never rescue a typo
+            k, v = lib.iban_parse(mutated, True)
+            part["evals"] += 1
+            if k == "ok":
+                part.violation(f"{kind_}-undetected-with-national-validation",
+                               {"kind": "c03", "valid": valid, "mutated": mutated, "how": how,
+                                "national": True}, "reject", (k, v))
+                return
         if k != "ok" and via_object:
             # the validating constructor given an IBAN object built with validation off
             ko, obj = lib.outcome(lib.IBAN, mutated, allow_invalid=True)
@@ -134,6 +145,7 @@ def shard(args):
 
     partner_pre = None
     via_object = False
+    with_national = False
 
     for f in dict.fromkeys(fillers):
         base = bases.bban(c, f)
@@ -141,6 +153,7 @@ def shard(args):
         # partner sequences for one filler (the collision needs equal check digits: ~1 typo in 97)
         partner_pre = bases.partners(country)[:3] if f == fillers[0] else None
         via_object = f == fillers[-1]
+        with_national = f == fillers[-1]
         # ---- substitutions and transpositions inside the BBAN
         for p in range(L):
             for alpha in kinds(cl[p]):
@@ -281,7 +294,8 @@ def replay(case: dict) -> dict:
     if case.get("kind") == "c03seq":
         pc, m = case["partner"], case["mutated"]
         lib.iban_parse(pc + ri.check_digits(pc, m[4:]) + m[4:])
-    verdict, obs = judge_mutation(case["valid"], case["mutated"], bool(case.get("via_object")))
+    verdict, obs = judge_mutation(case["valid"], case["mutated"], bool(case.get("via_object")),
+                                  bool(case.get("national")))
     return {"ok": verdict != "bad", "observed": obs, "expected": "reject"}
 
 
